@@ -13,7 +13,7 @@ import sys
 
 from pysym.engine import Engine, StepLimit
 from pysym.values import *  # noqa
-from pysym.harness import Check, Recorder
+from pysym.harness import Check, Recorder, guard_repo_exception
 from checks.splitcommon import *  # noqa
 
 import bibtexparser
@@ -149,8 +149,16 @@ def task(parts, label, pump=0):
                 inp = eng.model_str(m, text)
                 import logging
                 logging.disable(logging.CRITICAL)
-                nat = bibtexparser.write_string(bibtexparser.parse_string(inp))
                 got = eng.model_value(m, out)
+                try:
+                    nat = bibtexparser.write_string(bibtexparser.parse_string(inp))
+                except Exception as e:  # noqa
+                    # the engine's models are more permissive than CPython somewhere (e.g. copying a dict view): the
+                    # witness of this path makes the real parse+write raise - which is the violation itself
+                    guard_repo_exception(e)
+                    rec.violations.append({"tag": "native-raises", "input": inp, "observed": f"{type(e).__name__}: {e}",
+                                           "expected": "parse_string + write_string return"})
+                    nat = got
                 if nat != got:
                     rec.violations.append({"kind": "nonreproducing", "tag": "engine-vs-native", "input": inp, "engine": got, "native": nat})
                 rec.validated += 1
